@@ -108,6 +108,9 @@ func (s *set[ElementType]) Replace(elements ReadableSet[ElementType]) (previousE
 
 	elements.Range(func(element ElementType) {
 		s.Set(element, types.Void)
+
+		// elements that are part of the new set were not removed
+		previousElements.Delete(element)
 	})
 
 	return previousElements
